@@ -399,7 +399,10 @@ LIMITATIONS = [
     "unless the later argument contains a call (then the earlier values are snapshotted)",
     "extractor: a file-name fixture (`fname: str`) is the constant local path '.../c15_file.rec' (no hdfs:// prefix, extension .rec); "
     "the dynamic run uses a path with the same basename",
-    "C / C++ extension code is NOT analysed: the C-entry-point table says which arguments each entry point writes; it is validated only dynamically",
+    "C / C++ extension code is NOT modelled in Coq: the C-entry-point table says which arguments each entry point writes; the table is compared on "
+    "every run with a SYNTACTIC scan of chist_pywrap.c, cosmolib_pywrap.c and htmc.cc (c15_translate.c_scan: stores through pointers obtained "
+    "from PyArray_DATA / PyArray_GETPTRn of an argument, memcpy-like callees, pointer escapes; no preprocessor, no aliasing through structs) "
+    "and validated dynamically; records.cpp (the record-file writer) is covered dynamically only",
     "skeleton semantics: one abstract buffer per array object; views into the SAME buffer are the same abstract buffer, so a write to a "
     "disjoint part of a shared buffer counts as a write (sound, may be imprecise); memory reachable only through object-dtype elements is not modelled",
 ]
@@ -518,6 +521,12 @@ def inventory_step(ctx):
                        "no_longer_checks": "coverage of the property's quantifier (every public array-taking function, every option combination)"},
                       found_input=False)
     cprob = tr.ctable_problems(ctx.impl, sk.C_TABLE)
+    wprob, found = tr.ctable_write_problems(ctx.impl, sk.C_TABLE)
+    ctx.count("c_scan:entry_points", len(found))
+    ctx.count("c_scan:entry_points_writing_an_argument", sum(1 for v in found.values() if v))
+    ctx.obligation("C source scan (chist_pywrap.c, cosmolib_pywrap.c, htmc.cc): no entry point stores through an array argument "
+                   "that the C entry-point table declares read-only, no unreviewed pointer escape", not wprob, "; ".join(wprob[:6]))
+    cprob = cprob + wprob
     ctx.obligation("C entry-point table names every public method of the wrapped C++ classes", not cprob, "; ".join(cprob[:6]))
     if cprob:
         ctx.violation("the C entry-point table of the C15 extractor no longer matches the wrapped sources: " + cprob[0],
@@ -556,7 +565,14 @@ TRUSTED = [
     "skeleton extractor harness/translate/c15_skeleton.py (python ast -> IR, hand tables for numpy/builtins/methods): trusted to "
     "over-approximate aliasing and writes of the Python sources; regenerated from the scratch build on every run; validated by the dynamic run "
     "(a mutation observed under a discharged obligation is reported as an extractor defect)",
-    "C entry-point table (hand review of chist_pywrap.c, cosmolib_pywrap.c, htmc.cc, records.cpp; C code is covered dynamically only): " + c_table_text(),
+    "C entry-point table (hand review of chist_pywrap.c, cosmolib_pywrap.c, htmc.cc, records.cpp; re-derived for the first three by the syntactic "
+    "scanner c15_translate.c_scan on every run, fail closed; otherwise covered dynamically): " + c_table_text(),
+    "driver list = the quantifier: harness/props/c15_drivers.py (one driver per public function and option valuation) and the OUT_OF_SCOPE list "
+    "of c15_translate.py (public callables without array arguments / outside the listed families, each with its reason) are reviewed by hand; "
+    "c15_translate.check compares both with the `ast` of the 8 anchored python modules on every run (new public callable, changed parameter "
+    "list, vanished callable => undischarged obligation)",
+    "literal transport: byte strings of the snapshots are printed as 7-byte primitive-integer chunks and decoded by Exec.bytes63 (not verified; "
+    "Example transport_agree compares it with the hex-string decoder; wf63 rejects a length mismatch)",
     "modelled, not verified: numpy's view/copy semantics as encoded in the tables (which calls return views, which write), Python's "
     "evaluation order and exception semantics (every statement may raise: XHalt)",
     "dynamic run: differential testing bounded by the argument matrix; snapshots are taken by numpy (tobytes of the base buffer, dtype.descr, "
@@ -566,9 +582,12 @@ TRUSTED = [
 
 
 def run(ctx, replay=None):
-    ctx.rule = ("STATIC: one obligation `frame_ok skeleton params = true` per (public function, option valuation) driver, skeleton regenerated "
-                "from the scratch build's sources.  DYNAMIC: every driver run on the matrix {native, swapped(, mixed)} x {contiguous, strided} x "
+    ctx.rule = ("INVENTORY: every public callable of the anchored python modules is driven or listed out of scope; parameter lists unchanged; C table vs "
+                "C sources.  STATIC: one obligation `frame_ok skeleton params = true` per (public function, option valuation) driver, skeleton regenerated "
+                "from the scratch build's sources (frame_ok is sound AND exact for the skeleton semantics: C15_frame_ok_decides).  DYNAMIC: every driver run on the matrix {native, swapped(, mixed)} x {contiguous, strided} x "
                 "{0-d,1-d,2-d} x {f8,f4,i8,i4 | structured}, snapshots of every non-exempt array argument before/after compared in Coq.  "
+                "quick: per driver always the no-conversion corner (native, contiguous, first dtype) and the swapped+strided corner per ndim plus a seeded sample; "
+                "thorough: the full matrix x 2 value seeds.  A failed obligation without a dynamic witness triggers a full-matrix search for that driver.  "
                 "non-trivial: the argument needs an internal conversion (non-native, strided or not f8).  distinct by canonical JSON of the case.")
     ctx.trusted = TRUSTED + ["EXEMPT (documented in-place, no obligation): " + x for x in exemptions()] + ["LIMITATION: " + x for x in LIMITATIONS]
     os.environ["C15_WORK"] = ctx.work
